@@ -74,11 +74,22 @@ class Collector:
                     d[k] = d.get(k, 0) + x
             d['violating_constructions'] = d.get('violating_constructions', 0) + (1 if res['v'] else 0)
             self.ctx.outcomes[f'{cls}:' + ('ok' if not res['v'] else '+'.join(sorted(s.split(":", 1)[1] for s, _ in res['v']))[:80])] += 1
-            for sig, what in res['v']:
-                self.counts[sig] = self.counts.get(sig, 0) + 1
-                if sig not in self.best or item['i'] < self.best[sig][0]:
-                    self.best[sig] = [item['i'], what, item]
         return self.done - n0 == len(items)
+
+    def discard(self, i: int) -> None:
+        """Forget the violations of work item i (they are consequences of a
+        defect that is reported where it belongs)."""
+        res = self.results.get(i)
+        if res:
+            res['v'] = []
+
+    def summarize(self, items: dict[int, dict]) -> None:
+        self.best, self.counts = {}, {}
+        for i in sorted(self.results):
+            for sig, what in self.results[i]['v']:
+                self.counts[sig] = self.counts.get(sig, 0) + 1
+                if sig not in self.best:
+                    self.best[sig] = [i, what, items[i]]
 
 
 def run(ctx: Ctx) -> None:
@@ -87,7 +98,7 @@ def run(ctx: Ctx) -> None:
     import vf.c18_judge as J      # imported before the pools fork
     J._qiskit_map()
     thorough = not ctx.quick
-    budget = (80 if ctx.quick else 27 * 60) * float(os.environ.get('VERIF_BUDGET_SCALE', '1'))
+    budget = (70 if ctx.quick else 27 * 60) * float(os.environ.get('VERIF_BUDGET_SCALE', '1'))
     deadline = ctx.t0 + budget
     col = Collector(ctx)
     counter = [0]
@@ -106,13 +117,16 @@ def run(ctx: Ctx) -> None:
             seen.add(_key(s))
             specs.append(s)
     items1 = [mk(s) for s in specs]
+    # composed gates that serve as inner gates of the second level are judged
+    # together with the base gates (one pool less)
+    items1s = [mk(s, light=True, second_inner=True) for s in GR.SECOND_LEVEL_INNER]
     for s in specs[:3] + specs[-2:]:
         ctx.sample(GR.show(s), limit=12)
-    complete = col.run(items1, deadline)
-    ctx.part('phases', base_constructions=len(items1), base_done_at_s=round(ctx.elapsed(), 1))
+    complete = col.run(items1 + items1s, deadline)
+    ctx.part('phases', base_constructions=len(items1) + len(items1s), base_done_at_s=round(ctx.elapsed(), 1))
     info: dict[str, dict] = {}
     broken: dict[str, list[str]] = {}
-    for it in items1:
+    for it in items1 + items1s:
         res = col.results.get(it['i'])
         if res is None:
             continue
@@ -137,37 +151,30 @@ def run(ctx: Ctx) -> None:
         for cs in GR.composed_specs(s, info[k], thorough):
             items2.append(mk(cs, light=not (thorough and info[k]['num_params'] <= 2), skip_optimize=skip_opt))
     menu_keys = {_key(s) for s in menu}
-    second = []
-    for s in GR.SECOND_LEVEL_INNER:
+    items2b: list[dict] = []
+    for it in items1s:
+        s = it['spec']
+        k = _key(s)
         if _key(s['args'][0]['$gate']) not in menu_keys:
+            # its own failures are consequences of the broken base gate
             dropped.append(f'{GR.show(s)} (second level): its inner gate was dropped')
+            col.discard(it['i'])
             continue
-        second.append(s)
-        items2.append(mk(s, light=True))
-    second_info: dict[str, dict] = {}
+        if k not in info:
+            continue
+        bad = [b for b in broken.get(k, []) if b.startswith(COMPOSITION_CLAUSES)]
+        if bad:
+            dropped.append(f'{GR.show(s)} (second level): {bad[0]}')
+            continue
+        skip_opt = any(b.startswith(('optimize', 'calc_params')) for b in broken.get(k, []))
+        for cs in GR.composed_specs(s, info[k], thorough, second_level=True):
+            items2b.append(mk(cs, light=True, second_level=True, skip_optimize=skip_opt))
     if complete:
         for s in items2[:2] + items2[len(items2) // 2:len(items2) // 2 + 2]:
             ctx.sample(GR.show(s['spec']), limit=12)
-        complete = col.run(items2, deadline)
-        for it in items2:
-            res = col.results.get(it['i'])
-            if res and 'info' in res['stats']:
-                second_info[_key(it['spec'])] = res['stats']['info']
-    items2b: list[dict] = []
-    if complete:
-        for s in second:
-            k = _key(s)
-            res = next((col.results.get(it['i']) for it in items2 if _key(it['spec']) == k), None)
-            if res is None or 'info' not in res['stats']:
-                continue
-            if any(sig.split(':', 1)[1].startswith(COMPOSITION_CLAUSES) for sig, _ in res['v']):
-                dropped.append(f'{GR.show(s)} (second level)')
-                continue
-            skip_opt = any(sig.split(':', 1)[1].startswith(('optimize', 'calc_params')) for sig, _ in res['v'])
-            for cs in GR.composed_specs(s, res['stats']['info'], thorough, second_level=True):
-                items2b.append(mk(cs, light=True, second_level=True, skip_optimize=skip_opt))
-        complete = col.run(items2b, deadline)
+        complete = col.run(items2 + items2b, deadline)
         ctx.part('phases', composed_constructions=len(items2) + len(items2b), composed_done_at_s=round(ctx.elapsed(), 1))
+    items1 = items1 + items1s
 
     # ---------------- phase 3
     items3: list[dict] = []
@@ -247,6 +254,7 @@ def run(ctx: Ctx) -> None:
     ]
 
     from vf.c18_judge import judge
+    col.summarize({it['i']: it for it in items1 + items2 + items2b + items3})
     for sig, rec in sorted(col.best.items(), key=lambda kv: kv[1][0]):
         _, what, item = rec
         again = [sig in [s for s, _ in judge(dict(item))[0]] for _ in range(2)]
